@@ -338,6 +338,10 @@ def random_topology(rng, n, graph_kind):
         f.append({'k': 'cont', 't': toks[:rng.choice([7, 8, 8])] if rng.random() < 0.9 else toks[:6], 'c': cs})
         if rng.random() < 0.05:
             f += [ln for ln in random_lines(rng, 1) if ln['k'] in ('comm', 'blank', 'pre')]
+    if rng.random() < 0.25:
+        # sections that are not bond sources, whatever they list: [ settles ], [ exclusions ], [ virtual_sites2 ]
+        f.append({'k': 'sec', 't': [rng.choice(['settles', 'exclusions', 'virtual_sites2'])], 'c': []})
+        f.append({'k': 'cont', 't': [str(nrs[0]), '1', '0.09572', '0.15139'][:rng.choice([2, 4])], 'c': []})
     secs = ['bonds', 'constraints', 'pairs']
     blocks = [rng.choice(secs) for _ in range(rng.randint(1, 5))] if bonds else []
     assign = {b: rng.randrange(len(blocks)) for b in bonds} if blocks else {}
